@@ -119,7 +119,7 @@ Proof.
     + intros st t H. destruct t; cbn [tsize] in H; lia.
   - repeat split.
     + (* DeferredType.Resolve *)
-      intros st e H. destruct e as [|n|a|a b|a|n a| |p]; cbn [esize] in H; cbn [dt_resolve good esize tsize].
+      intros st e H. destruct e as [|n|k a|k a b|a|n a| |p]; cbn [esize] in H; cbn [dt_resolve good esize tsize].
       * split; lia.
       * rewrite name_type_size. split; lia.
       * specialize (IHd st a ltac:(lia)). destruct (dt_resolve f st a) as [st1 ta| |]; cbn [rbind good] in *; [|exact I|exact IHd].
@@ -143,7 +143,7 @@ Proof.
       destruct (dt_resolve f (set_slot st n SResolving) d) as [st1 t| |]; cbn [rbind good] in *; [|exact I|exact IHd].
       pose proof (weight_set_slot_le st1 n (SDone t) ltac:(discriminate)). cbn [tsize]. lia.
     + (* Resolve of a type value *)
-      intros st t H. destruct t as [|n|n|a|a b|]; cbn [tsize] in H; cbn [ty_resolve good tsize].
+      intros st t H. destruct t as [|n|n|k a|k a b|]; cbn [tsize] in H; cbn [ty_resolve good tsize].
       * split; lia.
       * destruct (lookup st n); [|exact I].
         specialize (IHa st n ltac:(lia)). destruct (alias_resolve f st n); cbn [good] in *; auto.
@@ -186,8 +186,8 @@ Proof. unfold resolve_in. apply dt_resolve_total. lia. Qed.
 Fixpoint plain (e : aexp) : bool :=
   match e with
   | XCore | XName _ | XObj0 => true
-  | XCont1 a | XVar1 a => plain a
-  | XCont2 a b => plain a && plain b
+  | XCont1 _ a | XVar1 a => plain a
+  | XCont2 _ a b => plain a && plain b
   | XArgs _ _ | XObj _ => false
   end.
 
@@ -195,7 +195,7 @@ Lemma plain_resolves : forall fuel st e, plain e = true -> esize e <= fuel -> ex
 Proof.
   induction fuel as [|f IH]; intros st e Hp Hs.
   - destruct e; cbn [esize] in Hs; lia.
-  - destruct e as [|n|a|a b|a|n a| |p]; cbn [plain esize] in Hp, Hs; cbn [dt_resolve]; try discriminate; eauto.
+  - destruct e as [|n|k a|k a b|a|n a| |p]; cbn [plain esize] in Hp, Hs; cbn [dt_resolve]; try discriminate; eauto.
     + destruct (IH st a Hp ltac:(lia)) as [t ->]. cbn [rbind]. eauto.
     + apply andb_true_iff in Hp as [Ha Hb].
       destruct (IH st a Ha ltac:(lia)) as [ta ->]. cbn [rbind].
@@ -304,18 +304,23 @@ Lemma undeclared_parent st n f :
   lookup st n = None -> dt_resolve (S (S f)) st (XObj (XName n)) = RErr EUnresolvedType.
 Proof. intros H. cbn [dt_resolve rbind]. unfold name_type. rewrite H. cbn [ty_resolve]. now rewrite H. Qed.
 
-Lemma undeclared_parent_in_container st n f :
-  lookup st n = None -> dt_resolve (S (S (S f))) st (XObj (XCont1 (XName n))) = RErr EUnresolvedType.
+Lemma undeclared_parent_in_container st n k f :
+  lookup st n = None -> dt_resolve (S (S (S f))) st (XObj (XCont1 k (XName n))) = RErr EUnresolvedType.
 Proof. intros H. cbn [dt_resolve rbind]. unfold name_type. rewrite H. cbn [ty_resolve rbind]. now rewrite H. Qed.
 
 (* Name[argument]: NOT_PARAMETERIZED_TYPE for a declared alias, ILLEGAL_ARGUMENT_TYPE (the creator of TypeReference)
    for an undeclared name - after the argument has been resolved *)
 Lemma alias_with_arguments st n a f :
   plain a = true -> esize a <= f ->
-  dt_resolve (S f) st (XArgs n a) = RErr (match lookup st n with Some _ => ENotParameterized | None => EIllegalArgument end).
+  exists t, dt_resolve f st a = ROk st t /\
+  dt_resolve (S f) st (XArgs n a) =
+    RErr (match lookup st n with
+          | Some _ => ENotParameterized
+          | None => worded EIllegalArgument EIllegalArgumentOrUnresolved (print_pred st t)
+          end).
 Proof.
-  intros Hp Hs. cbn [dt_resolve]. destruct (plain_resolves f st a Hp Hs) as [t ->]. cbn [rbind].
-  now destruct (lookup st n).
+  intros Hp Hs. destruct (plain_resolves f st a Hp Hs) as [t Ht]. exists t. split; [exact Ht|].
+  cbn [dt_resolve]. rewrite Ht. cbn [rbind]. now destruct (lookup st n).
 Qed.
 
 (* the alias that is being resolved as the parent of an Object type inside its own expression (fix 32b5790: the
@@ -329,20 +334,27 @@ Proof.
 Qed.
 
 (* an alias of itself (A = A, A = Variant[A]) that has been resolved is an illegal parent: the walk meets it twice *)
+Lemma print_pred_alias st n : print_pred st (TAlias n) = PFine.
+Proof. unfold print_pred. now destruct (tainted st (TAlias n)). Qed.
+
 Lemma self_alias_parent st n d f :
   lookup st n = Some (d, SDone (TAlias n)) -> dt_resolve (S (S (S f))) st (XObj (XName n)) = RErr EIllegalInheritance.
 Proof.
   intros H. cbn [dt_resolve rbind]. unfold name_type. rewrite H. cbn [ty_resolve alias_resolve]. rewrite H. cbn [rbind].
-  unfold resolved_parent. destruct st as [|x st]; [discriminate|]. cbn [length rp_loop existsb]. rewrite H.
-  cbn [existsb]. now rewrite Nat.eqb_refl.
+  unfold resolved_parent, illegal_parent_type. destruct st as [|x st]; [discriminate|].
+  cbn [length rp_loop rp_culprit existsb]. rewrite H.
+  cbn [existsb]. rewrite Nat.eqb_refl. cbn [orb]. rewrite print_pred_alias. reflexivity.
 Qed.
 
-(* a resolved alias of a type that is no Object and no alias is an illegal parent *)
+(* a resolved alias of a type that is no Object and no alias is an illegal parent; the error is worded with that
+   type, and the wording decides which error leaves *)
 Lemma non_object_parent st n d t f :
   lookup st n = Some (d, SDone t) -> (match t with TObj | TAlias _ => False | _ => True end) ->
-  dt_resolve (S (S (S f))) st (XObj (XName n)) = RErr EIllegalInheritance.
+  dt_resolve (S (S (S f))) st (XObj (XName n)) =
+    RErr (worded EIllegalInheritance EIllegalInheritanceOrUnresolved (print_pred st t)).
 Proof.
   intros H Ht. cbn [dt_resolve rbind]. unfold name_type. rewrite H. cbn [ty_resolve alias_resolve]. rewrite H. cbn [rbind].
-  unfold resolved_parent. destruct st as [|x st]; [discriminate|]. cbn [length rp_loop existsb]. rewrite H.
-  destruct t; cbn [rp_loop]; try reflexivity; contradiction.
+  unfold resolved_parent, illegal_parent_type. destruct st as [|x st]; [discriminate|].
+  cbn [length rp_loop rp_culprit existsb]. rewrite H.
+  destruct t; cbn [rp_loop rp_culprit]; try reflexivity; contradiction.
 Qed.
